@@ -1,6 +1,7 @@
 import DnpProofs.Lemmas.Align
 import DnpProofs.Lemmas.Store
 import DnpProofs.Lemmas.Consistent2
+import DnpModel.Proc.Core
 set_option linter.unusedSectionVars false
 /-!
 # C01 — every produced data object is structurally consistent
@@ -120,6 +121,204 @@ theorem probes_consistent {d : Data κ α} (h : d.Consistent) (k v : String) (n 
     ({ d with values := ⟨d.values.shape, setAt d.values.data flat x⟩ } : Data κ α).Consistent :=
   ⟨h, h, h, ⟨h.1, h.2.1, h.2.2.1, by simpa [Arr.WF] using h.2.2.2⟩⟩
 
+/-! ## The invariant over the whole operation alphabet
+
+`StoreInv s`: every object of the workspace is consistent.  `Op.Valid`: the side conditions under which the
+property speaks about an operation — constructor payloads are consistent ("applied to structurally consistent
+inputs"), a plain array operand is well formed, an explicit coordinate for `concat` has one entry per object, a
+processing function is one of those shown to preserve consistency (C08 instantiates this), and `unfold` / `fold`
+only occur as the bracket `unfoldFold` ("an unfold...fold bracket counts as one step"). -/
+
+def StoreInv (s : Store κ α) : Prop := ∀ i d, s.get? i = some d → d.Consistent
+
+def OpValid (sc : Scalars κ α) : Op κ α → Prop
+  | .new _ d => d.Consistent
+  | .unfold _ _ => False
+  | .fold _ => False
+  | .arrayOp _ _ _ arr _ => arr.WF
+  | .concat objs _ coord _ => (coord.getD (sc.arange objs.length)).length = objs.length
+  | .proc F _ _ => ∀ d r, d.Consistent → F d = .ok r → r.Consistent
+  | _ => True
+
+theorem set_inv {s : Store κ α} (hs : StoreInv s) {i : Nat} {d : Data κ α} (hd : d.Consistent) :
+    StoreInv (s.set i d) := by
+  intro j e he
+  by_cases hji : j = i
+  · subst hji; rw [Store.get?_set_self] at he; cases he; exact hd
+  · rw [Store.get?_set_ne _ _ hji] at he; exact hs _ _ he
+
+theorem get?_del_self : ∀ (t : Store κ α) (i : Nat), (t.del i).get? i = none
+  | [], _ => rfl
+  | (k, e) :: t, i => by
+    by_cases hk : k = i
+    · simp [Store.del, hk, get?_del_self t i]
+    · simp [Store.del, Store.get?, hk, get?_del_self t i]
+
+theorem get?_del_some (s : Store κ α) {i j : Nat} {d : Data κ α} (h : (s.del j).get? i = some d) :
+    s.get? i = some d := by
+  by_cases hij : i = j
+  · subst hij; rw [get?_del_self] at h; cases h
+  · rw [Store.get?_del_ne s hij] at h; exact h
+
+theorem withObj_inv {s : Store κ α} {i : Nat} {k : Data κ α → StepOut κ α} (hs : StoreInv s)
+    (hk : ∀ d, s.get? i = some d → StoreInv (k d).store) : StoreInv (withObj s i k).store := by
+  unfold withObj
+  split
+  · rename_i d hd; exact hk d hd
+  · exact hs
+
+theorem putResult_inv {s : Store κ α} {i : Nat} {r : Except Err (Data κ α)} (hs : StoreInv s)
+    (hr : ∀ d, r = .ok d → d.Consistent) : StoreInv (putResult s i r).store := by
+  unfold putResult
+  split
+  · rename_i d; exact set_inv hs (hr d rfl)
+  · exact hs
+
+theorem allObjs_consistent {s : Store κ α} (hs : StoreInv s) : ∀ (is : List Nat) (ds : List (Data κ α)),
+    allObjs s is = some ds → ds.length = is.length ∧ ∀ d ∈ ds, d.Consistent
+  | [], ds, h => by simp only [allObjs, Option.some.injEq] at h; subst h; simp
+  | i :: is, ds, h => by
+    unfold allObjs at h
+    cases hg : s.get? i with
+    | none => rw [hg] at h; simp at h
+    | some d =>
+      cases hq : allObjs s is with
+      | none => rw [hg, hq] at h; simp at h
+      | some rest =>
+        rw [hg, hq] at h
+        simp only [Option.some.injEq] at h
+        subst h
+        obtain ⟨hl, hc⟩ := allObjs_consistent hs is rest hq
+        refine ⟨by simp [hl], ?_⟩
+        intro e he
+        rcases List.mem_cons.1 he with rfl | he
+        · exact hs _ _ hg
+        · exact hc e he
+
+/-- ONE STEP: whatever operation of the alphabet is applied with whatever arguments, and whether it returns or
+    raises, every object of the workspace is consistent afterwards -/
+theorem step_inv (sc : Scalars κ α) (s : Store κ α) (op : Op κ α) (hs : StoreInv s) (hv : OpValid sc op) :
+    StoreInv (step sc s op).store := by
+  cases op with
+  | new id d => exact set_inv hs hv
+  | copy obj out => exact withObj_inv hs fun d hd => set_inv hs (hs _ _ hd)
+  | reorder obj ds => exact withObj_inv hs fun d hd => putResult_inv hs fun r hr => reorder_consistent (hs _ _ hd) hr
+  | sortDims obj => exact withObj_inv hs fun d hd => set_inv hs (sortDims_consistent (hs _ _ hd))
+  | rename obj dim new => exact withObj_inv hs fun d hd => putResult_inv hs fun r hr => rename_consistent (hs _ _ hd) hr
+  | sort obj dim => exact withObj_inv hs fun d hd => putResult_inv hs fun r hr => sort_consistent _ (hs _ _ hd) hr
+  | newDim obj dim c => exact withObj_inv hs fun d hd => putResult_inv hs fun r hr => newDim_consistent (hs _ _ hd) hr
+  | squeeze obj => exact withObj_inv hs fun d hd => set_inv hs (squeeze_consistent (hs _ _ hd))
+  | split obj dim new c => exact withObj_inv hs fun d hd => putResult_inv hs fun r hr => split_consistent (hs _ _ hd) hr
+  | concatenate obj other dim =>
+    exact withObj_inv hs fun d hd => withObj_inv hs fun b hb => putResult_inv hs fun r hr =>
+      concatenate_consistent (hs _ _ hd) (hs _ _ hb) hr
+  | unfold obj dim => exact absurd hv id
+  | fold obj => exact absurd hv id
+  | unfoldFold obj dim =>
+    refine withObj_inv hs fun d hd => putResult_inv hs fun r hr => ?_
+    by_cases hf : d.unf = none
+    · exact unfoldFold_consistent sc.arange (hs _ _ hd) hf hr
+    · -- an object that is already unfolded: `unfold` raises, nothing is stored
+      exfalso
+      have : d.unfold sc.arange dim = .error .value := by
+        unfold Data.unfold
+        have : ¬ d.folded = true := by
+          unfold folded; cases hu : d.unf with
+          | none => exact absurd hu hf
+          | some _ => simp
+        simp [this]
+      rw [this] at hr
+      cases hr
+  | getitem obj sels out =>
+    exact withObj_inv hs fun d hd => putResult_inv hs fun r hr => getitem_consistent _ _ (hs _ _ hd) hr
+  | setitem obj sels v =>
+    exact withObj_inv hs fun d hd => putResult_inv hs fun r hr => setitemWith_consistent _ _ (hs _ _ hd) hr
+  | binop f lhs rhs out =>
+    exact withObj_inv hs fun a ha => withObj_inv hs fun b hb => putResult_inv hs fun r hr =>
+      binop_consistent _ f (hs _ _ ha) (hs _ _ hb) hr
+  | scalarOp f obj out => exact withObj_inv hs fun d hd => set_inv hs (scalarOp_consistent (hs _ _ hd) f)
+  | arrayOp f stamp obj arr out =>
+    refine withObj_inv hs fun d hd => putResult_inv hs fun r hr => ?_
+    cases hq : d.arrayOp f arr with
+    | error e => rw [hq] at hr; cases hr
+    | ok q =>
+      rw [hq] at hr
+      simp only [Except.map, Except.ok.injEq] at hr
+      subst hr
+      have hqc := arrayOp_consistent f (hs _ _ hd) hv hq
+      cases stamp with
+      | none => exact hqc
+      | some nm => exact Data.addHist_consistent hqc _ _
+  | reduce f obj dim out =>
+    exact withObj_inv hs fun d hd => putResult_inv hs fun r hr => reduce_consistent f (hs _ _ hd) hr
+  | argCoord lt obj dim out =>
+    exact withObj_inv hs fun d hd => putResult_inv hs fun r hr => argCoord_consistent _ lt (hs _ _ hd) hr
+  | argIndex lt obj dim out =>
+    refine withObj_inv hs fun d hd => putResult_inv hs fun r hr => ?_
+    split at hr
+    · cases hr
+    · exact reduceDim_consistent _ (hs _ _ hd) hr
+  | cumsum obj dim out =>
+    exact withObj_inv hs fun d hd => putResult_inv hs fun r hr => cumulativeSum_consistent _ (hs _ _ hd) hr
+  | npReduce fname f obj ax out =>
+    refine withObj_inv hs fun d hd => ?_
+    cases hq : d.npReduce fname f ax with
+    | error e => simpa [hq] using hs
+    | ok v =>
+      cases v with
+      | inl r => simpa [hq] using set_inv hs (npReduce_consistent fname f ax (hs _ _ hd) hq)
+      | inr x => simpa [hq] using hs
+  | npUnary fname f obj out => exact withObj_inv hs fun d hd => set_inv hs (npUnary_consistent (hs _ _ hd) fname f)
+  | npBinary fname f lhs rhs out =>
+    exact withObj_inv hs fun a ha => withObj_inv hs fun b hb => putResult_inv hs fun r hr =>
+      npBinary_consistent fname f (hs _ _ ha) (hs _ _ hb) hr
+  | concat objs dim coord out =>
+    simp only [step]
+    cases hq : allObjs s objs with
+    | none => exact hs
+    | some ds =>
+      obtain ⟨hl, hc⟩ := allObjs_consistent hs objs ds hq
+      exact putResult_inv hs fun r hr => concat_consistent sc.arange hc (by rw [hl]; exact hv) hr
+  | setAttr obj k v => exact withObj_inv hs fun d hd => set_inv hs (probes_consistent (hs _ _ hd) k v "" [] 0 default).1
+  | setDattr obj k v => exact withObj_inv hs fun d hd => set_inv hs (probes_consistent (hs _ _ hd) k v "" [] 0 default).2.1
+  | addHist obj name keys => exact withObj_inv hs fun d hd => set_inv hs (Data.addHist_consistent (hs _ _ hd) _ _)
+  | setValue obj flat v => exact withObj_inv hs fun d hd => set_inv hs (probes_consistent (hs _ _ hd) "" "" "" [] flat v).2.2.2
+  | setCoord obj dim k v => exact withObj_inv hs fun d hd => set_inv hs (setCoord_consistent (hs _ _ hd) dim k v)
+  | del obj => exact fun i d hd => hs _ _ (get?_del_some s hd)
+  | proc F obj out => exact withObj_inv hs fun d hd => putResult_inv hs fun r hr => hv d r (hs _ _ hd) hr
+
+/-- EVERY HISTORY: by induction over the operation list, with no bound on its length -/
+theorem run_inv (sc : Scalars κ α) : ∀ (ops : List (Op κ α)) (s : Store κ α), StoreInv s →
+    (∀ op ∈ ops, OpValid sc op) → StoreInv (run sc s ops)
+  | [], _, hs, _ => hs
+  | op :: ops, s, hs, hv => by
+    unfold run
+    simp only [List.foldl_cons]
+    exact run_inv sc ops _ (step_inv sc s op hs (hv op (by simp))) (fun o ho => hv o (by simp [ho]))
+
+/-- the empty workspace satisfies the invariant; the hypotheses are met by a concrete non-trivial history -/
+theorem empty_inv : StoreInv ([] : Store κ α) := by intro i d h; simp [Store.get?] at h
+
+/-- the `proc` side condition is met by every processing function of the "apply a NumPy routine along the axis
+    of a named dimension" shape, whatever the routine `h` does (the new axis, if any, must have the new length) -/
+theorem proc_mapAlong_valid (sc : Scalars κ α) (dim : String) (h : List α → List α) (m : Nat) (nc : Option (List κ))
+    (obj out : Nat) (hnc : ∀ c, nc = some c → c.length = m) (hm : nc = none → ∀ d : Data κ α, d.Consistent → dim ∈ d.dims → m = d.ext dim) :
+    OpValid sc (.proc (fun d => d.mapAlong dim h m nc) obj out) := by
+  intro d r hd hr
+  by_cases hdm : dim ∈ d.dims
+  · cases nc with
+    | some c =>
+      simp only [mapAlong, hdm, not_true_eq_false, if_false, Except.ok.injEq] at hr
+      subst hr
+      exact consistent_setAxis hd _ c _ (by simp [mapAxis, hnc c rfl]) (Arr.ofFn_WF _ _)
+    | none =>
+      simp only [mapAlong, hdm, not_true_eq_false, if_false, Except.ok.injEq] at hr
+      subst hr
+      refine consistent_of_same_labels hd _ ?_ (Arr.ofFn_WF _ _)
+      simp only [mapAxis, Arr.ofFn_shape, hm rfl d hd hdm, ext]
+      exact setAt_self _ _ _ (by rw [hd.shape_len]; exact index_lt hdm)
+  · simp [mapAlong, hdm] at hr
+
 /-- a 3-D witness with pairwise distinct extents (non-vacuity of the hypotheses above) and the
     defect the pinned `sort_dims` had on it -/
 def witness : Data Nat Nat :=
@@ -129,5 +328,26 @@ def witness : Data Nat Nat :=
 theorem pinned_sortDims_inconsistent :
     decide witness.Consistent = true ∧ decide witness.sortDimsPinned.Consistent = false := by
   decide +kernel
+
+/-- non-vacuity of `run_inv`: a concrete history (construct, sort_dims, reduce, squeeze, tuple-axis NumPy reduction,
+    concat, delete) meets `OpValid` at every step, and the run really produces several objects -/
+def demoSc : Scalars Nat Nat :=
+  { dist := fun a b => a - b + (b - a), lt := fun a b => decide (a < b), le := fun a b => decide (a ≤ b),
+    close := fun a b => decide (a = b), arange := fun n => List.range n, ofκ := id, ofNat := id,
+    ltα := fun a b => decide (a < b), add := (· + ·) }
+
+def demoOps : List (Op Nat Nat) :=
+  [.new 0 witness, .sortDims 0, .reduce List.sum 0 "a" 1, .squeeze 1,
+   .npReduce "sum" List.sum 0 (.tuple [.nm "b", .ix 0]) 2, .concat [1, 1] "rep" none 3, .del 0]
+
+theorem demo_valid : ∀ op ∈ demoOps, OpValid demoSc op := by
+  intro op h
+  simp only [demoOps, List.mem_cons, List.not_mem_nil, or_false] at h
+  rcases h with rfl | rfl | rfl | rfl | rfl | rfl | rfl
+  · show witness.Consistent; decide +kernel
+  all_goals first | trivial | rfl
+
+theorem demo_run : StoreInv (run demoSc [] demoOps) ∧ ((run demoSc [] demoOps).map (·.1)) = [1, 2, 3] :=
+  ⟨run_inv demoSc demoOps [] empty_inv demo_valid, by decide +kernel⟩
 
 end Dnp.C01
